@@ -127,10 +127,11 @@ C11view(f, v) ==
                  /\ v.getter[k] # -3
                  /\ \/ ~HasType(f, t) /\ v.getter[k] # Raised
                     \/ HasType(f, t) /\ v.getter[k] # ContentOf(f, FirstOf(f, t)), "C11:getter")
-       \cup If(\E i \in 1..f.n :
+       \cup If(Len(v.idx) # f.n \/ \E i \in 1..f.n :
                  LET e == f.table[i] IN
-                 \/ ~IsLive(e) /\ v.idx[i] # 0
-                 \/ IsLive(e) /\ e.type \in Decodable /\ v.idx[i] # ContentOf(f, i), "C11:get_index")
+                 /\ i <= Len(v.idx)
+                 /\ \/ ~IsLive(e) /\ v.idx[i] # 0
+                    \/ IsLive(e) /\ e.type \in Decodable /\ v.idx[i] # ContentOf(f, i), "C11:get_index")
        \cup If(v.oob # Raised, "C11:index_out_of_range")
        \cup If((\A i \in LiveSlots(f) : f.table[i].type \in Decodable)
                  /\ (v.blocks_ok = FALSE
@@ -212,6 +213,14 @@ StepClauses(pre, ev, o, out, f, g2) ==
                a.type # b.type \/ (IsLive(a) /\ a # b) \/ (~IsLive(a) /\ pre.s.g.compact /\ a.offset # b.offset),
           "conf:table")
   \cup If(sound /\ ok /\ exp /\ mut /\ FileLen(out.f) # d.flen, "conf:file_length")
+  \* --- "later operations in the same session behave as if the failed call had never been made":
+  \* an accepted mutation that follows a refused one in the same context must produce exactly the
+  \* file it would have produced without it (which is the predicted one)
+  \cup If(pre.failed /\ ok /\ exp /\ mut /\
+            (~sound \/ FileLen(out.f) # d.flen \/ C04(f, g2) # {}
+             \/ \E i \in 1..f.n : i <= Len(out.f.table) /\
+                   LET a == out.f.table[i]  b == f.table[i] IN a.type # b.type \/ (IsLive(a) /\ a # b)),
+          "C07:later_call_differs_after_failure")
   \cup If(sound /\ ok /\ exp /\ mut /\ FreeBeyondLive(pre.s.f) /\ ~StepInRelation(pre.s.f, o, f), "conf:table_relation")
 
 \* ---------------------------------------------------------------- behaviour
@@ -221,7 +230,7 @@ InitFor(t) ==
       f == AbsFile(d)
       tys == {Traces[t].types[i] : i \in 1..Len(Traces[t].types)} IN
   [s |-> [f |-> f, m |-> Closed("rb"), g |-> GhostInit(f, tys)], sha |-> d.sha, flen |-> d.flen, me |-> <<>>,
-   dirty |-> FALSE]
+   dirty |-> FALSE, failed |-> FALSE]
 
 Init == /\ tid \in 1..Len(Traces)
         /\ l = 1
@@ -245,7 +254,10 @@ Step ==
                    \* a refused mutator in a write context makes the context "dirty" until the next
                    \* successful mutator or the next context
                    dirty |-> IF o.op \in Mutators THEN (~ev.res.ok /\ CanWrite(s.s.m))
-                             ELSE IF o.op = "enter" THEN FALSE ELSE s.dirty]
+                             ELSE IF o.op = "enter" THEN FALSE ELSE s.dirty,
+                   \* a refused mutator happened earlier in this write context
+                   failed |-> IF o.op = "enter" THEN FALSE
+                              ELSE s.failed \/ (o.op \in Mutators /\ ~ev.res.ok /\ CanWrite(s.s.m))]
         /\ cl' = cl \cup {<<l, c>> : c \in cs}
         /\ dead' = ~Sound(f, s.s.g, ev.obs.disk)
         /\ l' = l + 1
